@@ -143,20 +143,62 @@ func (s *seqRT) loadIter(rule, ctorName, argName string) *iterInfo {
 	if st == nil {
 		undecided("iterator %s is not a struct", d.T)
 	}
-	for i := 0; i < st.NumFields(); i++ {
-		info.fields = append(info.fields, st.Field(i).Name())
-	}
+	info.fields = leafFields(st, "")
 	return info
+}
+
+// leafFields: dotted paths of the scalar fields of a struct, descending into struct-typed (embedded) fields.
+func leafFields(st *types.Struct, prefix string) []string {
+	var out []string
+	for i := 0; i < st.NumFields(); i++ {
+		f := st.Field(i)
+		if sub, ok := f.Type().Underlying().(*types.Struct); ok && f.Type().String() != "reflect.MapIter" && f.Type().String() != "reflect.Value" {
+			out = append(out, leafFields(sub, prefix+f.Name()+".")...)
+			continue
+		}
+		out = append(out, prefix+f.Name())
+	}
+	return out
+}
+
+// ff flattens the fields of a heap object (struct values nested by value) into dotted leaf names.
+func ff(o *Obj) map[string]AV {
+	out := map[string]AV{}
+	if o == nil {
+		return out
+	}
+	var walk func(prefix string, fields map[string]AV)
+	walk = func(prefix string, fields map[string]AV) {
+		for n, v := range fields {
+			if sv, ok := v.(StructV); ok {
+				walk(prefix+n+".", sv.Fields)
+				continue
+			}
+			out[prefix+n] = v
+		}
+	}
+	walk("", o.Fields)
+	return out
 }
 
 // symbolicObj returns a state holding an iterator object whose fields are all symbols F:<name>.
 func (info *iterInfo) symbolicObj() (*State, Ref) {
 	st := newState()
-	f := map[string]AV{}
-	for _, n := range info.fields {
-		f[n] = Sym{Name: "F:" + n}
+	ust, _ := info.typ.Underlying().(*types.Struct)
+	var build func(t *types.Struct, prefix string) map[string]AV
+	build = func(t *types.Struct, prefix string) map[string]AV {
+		f := map[string]AV{}
+		for i := 0; i < t.NumFields(); i++ {
+			fl := t.Field(i)
+			if sub, ok := fl.Type().Underlying().(*types.Struct); ok && fl.Type().String() != "reflect.MapIter" && fl.Type().String() != "reflect.Value" {
+				f[fl.Name()] = StructV{T: fl.Type(), Fields: build(sub, prefix+fl.Name()+".")}
+				continue
+			}
+			f[fl.Name()] = Sym{Name: "F:" + prefix + fl.Name()}
+		}
+		return f
 	}
-	r := st.alloc(&Obj{T: info.typ, Kind: 's', Fields: f})
+	r := st.alloc(&Obj{T: info.typ, Kind: 's', Fields: build(ust, "")})
 	return st, r
 }
 
@@ -188,7 +230,7 @@ func (s *seqRT) checkPure(info *iterInfo, rule, ctor string) (outs []Outcome, ok
 		before := st.heap[r.ID]
 		after := o.St.heap[r.ID]
 		for _, n := range info.fields {
-			if !sameAV(before.Fields[n], after.Fields[n]) {
+			if !sameAV(ff(before)[n], ff(after)[n]) {
 				pure = false
 				why = "Current() modifies iterator field " + n
 			}
@@ -231,17 +273,17 @@ func (s *seqRT) ruleIterIndex(ctor, argName string, boundOf func(operand AV) str
 		return
 	}
 	keyV := pairField(curOuts[0].Ret[0], "Key")
-	ks, ok := keyV.(Sym)
-	if !ok || !strings.HasPrefix(ks.Name, "F:") {
-		c.und(rule, "seq."+ctor+" key field", s.w.FnPos(info.current), "Key of Current() is not a plain field of the iterator: "+canon(keyV))
+	// the key is an expression over the iterator's own integer fields (a field, or e.g. calls-1)
+	keyForm, okForm := linForm(keyV)
+	if !okForm || len(fieldSyms(keyV)) == 0 {
+		c.und(rule, "seq."+ctor+" key field", s.w.FnPos(info.current), "Key of Current() is not computed from the iterator's position fields: "+canon(keyV))
 		return
 	}
-	kf := strings.TrimPrefix(ks.Name, "F:")
 	// operand field(s): fields of the base object holding the constructor's argument
 	baseObj := info.base.Obj(info.obj)
 	opField := ""
 	for _, n := range info.fields {
-		if isSymNamed(baseObj.Fields[n], argName) {
+		if isSymNamed(ff(baseObj)[n], argName) {
 			opField = n
 		}
 	}
@@ -257,38 +299,43 @@ func (s *seqRT) ruleIterIndex(ctor, argName string, boundOf func(operand AV) str
 		return
 	}
 	after := outs[0].St.Obj(r)
-	wantKey := canon(Expr{Op: "+", Args: []AV{Sym{Name: "F:" + kf}, mkInt(1)}})
-	gotKey := canon(after.Fields[kf])
+	keyNext := substFields(keyV, ff(after))
+	nextForm, okNext := linForm(keyNext)
 	bound := boundOf(Sym{Name: "F:" + opField})
-	wantGuard := "<(" + wantKey + "," + bound + ")"
-	gotGuard := canon(outs[0].Ret[0])
-	stepOK := gotKey == wantKey && gotGuard == wantGuard
+	wantNext := keyForm.plus(1)
+	// the result, normalised to "X < 0": must be (key+1) - bound
+	gotX, okG := guardForm(outs[0].Ret[0])
+	wantX := wantNext.minusAtom(bound)
+	stepOK := okNext && okG && nextForm.equal(wantNext) && gotX.equal(wantX)
+	detail := fmt.Sprintf("expected key' = key+1 (%s) and the result equivalent to key' < %s; got key' = %s and result %s", wantNext, bound, canon(keyNext), canon(outs[0].Ret[0]))
+	keyFields := fieldSyms(keyV)
 	for _, n := range info.fields {
-		if n != kf && !sameAV(after.Fields[n], Sym{Name: "F:" + n}) {
+		if !keyFields[n] && !sameAV(ff(after)[n], Sym{Name: "F:" + n}) {
 			stepOK = false
-			gotKey += " ; field " + n + " modified to " + canon(after.Fields[n])
+			detail += " ; field " + n + " modified to " + canon(ff(after)[n])
 		}
 	}
 	c.check(stepOK, rule, "seq."+ctor+" step", pos,
-		"MoveNext: key' = key+1, continues iff key' < "+bound+", operand untouched",
-		"expected key' = "+wantKey+" and result "+wantGuard+"; got key' = "+gotKey+" and result "+gotGuard)
+		"MoveNext: key' = key+1, continues iff key' < "+bound+", operand untouched", detail)
 	// base
 	outs0 := s.runMethod(info.base, info.moveNext, info.obj)
 	if len(outs0) != 1 || outs0[0].Panicked || len(outs0[0].Ret) != 1 {
 		c.bad(rule, "seq."+ctor+" first advance", pos, "first MoveNext is not a single path")
 		return
 	}
-	first := outs0[0].St.Obj(info.obj).Fields[kf]
-	fk, isInt := asInt(first)
-	wantG0 := "<(0," + boundOf(Sym{Name: argName}) + ")"
-	gotG0 := canon(outs0[0].Ret[0])
-	c.check(isInt && fk == 0 && gotG0 == wantG0, rule, "seq."+ctor+" first advance", pos,
-		"first key is 0 and the loop is entered iff 0 < "+boundOf(Sym{Name: argName})+" (nothing for an empty / non-positive operand)",
-		fmt.Sprintf("expected first key 0 under guard %s; got key %s under guard %s", wantG0, canon(first), gotG0))
+	first := substFields(keyV, ff(outs0[0].St.Obj(info.obj)))
+	fk, isInt := evalIntExpr(first, nil)
+	bound0 := boundOf(Sym{Name: argName})
+	gotX0, okG0 := guardForm(outs0[0].Ret[0])
+	wantX0 := linearForm{terms: map[string]int64{}}.minusAtom(bound0)
+	c.check(isInt && fk == 0 && okG0 && gotX0.equal(wantX0), rule, "seq."+ctor+" first advance", pos,
+		"first key is 0 and the loop is entered iff 0 < "+bound0+" (nothing for an empty / non-positive operand)",
+		fmt.Sprintf("expected first key 0 under a guard equivalent to 0 < %s; got key %s under guard %s", bound0, canon(first), canon(outs0[0].Ret[0])))
 	if elemCheck {
 		valV := pairField(curOuts[0].Ret[0], "Val")
-		want := "⟨F:" + opField + "[⟨F:" + kf + "⟩]⟩"
-		c.check(canon(valV) == want, "ITER.LIVE", "seq."+ctor+" Current().Val", s.w.FnPos(info.current),
+		want := "⟨F:" + opField + "[" + canon(keyV) + "]⟩"
+		want2 := "⟨F:" + opField + "[" + keyV.String() + "]⟩"
+		c.check(canon(valV) == want || canon(valV) == want2, "ITER.LIVE", "seq."+ctor+" Current().Val", s.w.FnPos(info.current),
 			"value is read from the operand's backing array at call time (live element read)",
 			"expected the element "+want+" read at call time; got "+canon(valV))
 	}
@@ -307,7 +354,7 @@ func (s *seqRT) ruleIterString() {
 	baseObj := info.base.Obj(info.obj)
 	opField := ""
 	for _, n := range info.fields {
-		if isSymNamed(baseObj.Fields[n], "str") {
+		if isSymNamed(ff(baseObj)[n], "str") {
 			opField = n
 		}
 	}
@@ -369,7 +416,7 @@ func (s *seqRT) ruleIterString() {
 			// (b) fast path: find the position field as the one that advanced by 1
 			fpf := ""
 			for _, n := range info.fields {
-				if canon(after.Fields[n]) == canon(Expr{Op: "+", Args: []AV{Sym{Name: "F:" + n}, mkInt(1)}}) {
+				if canon(ff(after)[n]) == canon(Expr{Op: "+", Args: []AV{Sym{Name: "F:" + n}, mkInt(1)}}) {
 					fpf = n
 				}
 			}
@@ -432,7 +479,7 @@ func (s *seqRT) ruleIterString() {
 		posExpr = P
 		rv := fmt.Sprintf("ret:%s#", dec.Name())
 		// the same expression evaluated on the fields after the advance
-		Pnext := substFields(P, after.Fields)
+		Pnext := substFields(P, ff(after))
 		gotNext := canon(Pnext)
 		var r0, r1 string
 		for n := range allSyms(Pnext) {
@@ -464,14 +511,14 @@ func (s *seqRT) ruleIterString() {
 	}
 	c.check(gotStop == wantStop && len(stop.St.Conds) == 1, rule, "seq."+ctor+" exhaustion", pos, "reports false iff pos >= len(str), and changes nothing then", "expected the single stop condition "+wantStop+"; got "+gotStop)
 	for _, n := range info.fields {
-		if !sameAV(stop.St.Obj(r).Fields[n], Sym{Name: "F:" + n}) {
+		if !sameAV(ff(stop.St.Obj(r))[n], Sym{Name: "F:" + n}) {
 			c.bad(rule, "seq."+ctor+" exhaustion", pos, "exhausted MoveNext modifies field "+n)
 		}
 	}
 	_ = fastPaths
 	// base: position starts at 0 (the position expression evaluated on the freshly constructed iterator)
-	n0, isInt := evalIntExpr(posExpr, baseObj.Fields)
-	c.check(isInt && n0 == 0, rule, "seq."+ctor+" initial position", s.w.FnPos(info.ctor), "decoding starts at byte offset 0", "initial position is "+canon(substFields(posExpr, baseObj.Fields)))
+	n0, isInt := evalIntExpr(posExpr, ff(baseObj))
+	c.check(isInt && n0 == 0, rule, "seq."+ctor+" initial position", s.w.FnPos(info.ctor), "decoding starts at byte offset 0", "initial position is "+canon(substFields(posExpr, ff(baseObj))))
 }
 
 // fieldSyms: names of the iterator fields (symbols "F:<name>") occurring in v.
@@ -574,7 +621,7 @@ func (s *seqRT) ruleIterMap() {
 	baseObj := info.base.Obj(info.obj)
 	itField := ""
 	for _, n := range info.fields {
-		if sy, ok := baseObj.Fields[n].(Sym); ok && strings.Contains(sy.Name, "MapRange") {
+		if sy, ok := ff(baseObj)[n].(Sym); ok && strings.Contains(sy.Name, "MapRange") {
 			itField = n
 		}
 	}
@@ -690,7 +737,7 @@ func (s *seqRT) ruleIterChan() {
 	baseObj := info.base.Obj(info.obj)
 	chF := ""
 	for _, n := range info.fields {
-		if isSymNamed(baseObj.Fields[n], "ch") {
+		if isSymNamed(ff(baseObj)[n], "ch") {
 			chF = n
 		}
 	}
@@ -717,7 +764,7 @@ func (s *seqRT) ruleIterChan() {
 		good = good && strings.HasPrefix(ret, "recv.ok(")
 		after := outs[0].St.Obj(r)
 		for _, f := range info.fields {
-			if strings.HasPrefix(canon(after.Fields[f]), "recv.val(") {
+			if strings.HasPrefix(canon(ff(after)[f]), "recv.val(") {
 				vf = f
 			}
 		}
@@ -750,3 +797,119 @@ func (s *seqRT) ruleIters() {
 }
 
 var _ = constant.MakeInt64
+
+
+// linearForm: sum of atoms with integer coefficients plus a constant. Atoms are symbols and every
+// sub-expression that is not +, - (rendered canonically): len(x), convert(...), ...
+type linearForm struct {
+	terms map[string]int64
+	c     int64
+}
+
+func (l linearForm) String() string {
+	var ks []string
+	for k, v := range l.terms {
+		if v != 0 {
+			ks = append(ks, fmt.Sprintf("%d*%s", v, k))
+		}
+	}
+	sort.Strings(ks)
+	return fmt.Sprintf("%s + %d", strings.Join(ks, " + "), l.c)
+}
+
+func (l linearForm) clone() linearForm {
+	t := map[string]int64{}
+	for k, v := range l.terms {
+		t[k] = v
+	}
+	return linearForm{terms: t, c: l.c}
+}
+func (l linearForm) plus(n int64) linearForm { r := l.clone(); r.c += n; return r }
+func (l linearForm) minusAtom(a string) linearForm {
+	r := l.clone()
+	r.terms[a]--
+	return r
+}
+func (l linearForm) equal(o linearForm) bool {
+	if l.c != o.c {
+		return false
+	}
+	for k, v := range l.terms {
+		if o.terms[k] != v {
+			return false
+		}
+	}
+	for k, v := range o.terms {
+		if l.terms[k] != v {
+			return false
+		}
+	}
+	return true
+}
+
+func linForm(v AV) (linearForm, bool) {
+	out := linearForm{terms: map[string]int64{}}
+	var add func(v AV, sign int64) bool
+	add = func(v AV, sign int64) bool {
+		switch x := v.(type) {
+		case nil:
+			return false
+		case Zero:
+			return true
+		case Const:
+			n, ok := asInt(x)
+			if !ok {
+				return false
+			}
+			out.c += sign * n
+			return true
+		case Expr:
+			if x.Op == "+" && len(x.Args) == 2 {
+				return add(x.Args[0], sign) && add(x.Args[1], sign)
+			}
+			if x.Op == "-" && len(x.Args) == 2 {
+				return add(x.Args[0], sign) && add(x.Args[1], -sign)
+			}
+			if strings.HasPrefix(x.Op, "convert:") && len(x.Args) == 1 && (strings.HasSuffix(x.Op, ":int") || strings.HasSuffix(x.Op, ":int64")) {
+				return add(x.Args[0], sign)
+			}
+		}
+		out.terms[canon(v)] += sign
+		return true
+	}
+	ok := add(v, 1)
+	return out, ok
+}
+
+// guardForm normalises a comparison of integers to "X < 0" and returns X.
+func guardForm(v AV) (linearForm, bool) {
+	e, ok := v.(Expr)
+	if !ok || len(e.Args) != 2 {
+		return linearForm{}, false
+	}
+	a, ok1 := linForm(e.Args[0])
+	b, ok2 := linForm(e.Args[1])
+	if !ok1 || !ok2 {
+		return linearForm{}, false
+	}
+	sub := func(x, y linearForm, extra int64) linearForm {
+		r := x.clone()
+		for k, v := range y.terms {
+			r.terms[k] -= v
+		}
+		r.c -= y.c
+		r.c += extra
+		return r
+	}
+	switch e.Op {
+	case "<":
+		return sub(a, b, 0), true
+	case "<=": // a <= b  <=>  a - b - 1 < 0
+		return sub(a, b, -1), true
+	case ">":
+		return sub(b, a, 0), true
+	case ">=":
+		return sub(b, a, -1), true
+	}
+	return linearForm{}, false
+}
